@@ -40,6 +40,10 @@ type SpecEnv struct {
 	goal bool // polarity: true = being proved, false = being assumed
 	errs []string
 	depth int
+	// entry: the function's own parameters as the caller passed them (only in
+	// the environment of the function under verification): what a parameter
+	// name means inside old()
+	entry map[string]*SV
 }
 
 func (e *SpecEnv) clone() *SpecEnv {
@@ -82,6 +86,10 @@ func (g *gen) specEnv(cur, old *State) *SpecEnv {
 				env.vars[n] = &SV{V: g.vals[ps[i]], St: cur}
 			}
 		}
+	}
+	env.entry = map[string]*SV{}
+	for k, v := range env.vars {
+		env.entry[k] = v
 	}
 	return env
 }
@@ -874,7 +882,17 @@ func (e *SpecEnv) evalCall(n *ast.CallExpr) *SV {
 		}
 		ne := *e
 		ne.cur = e.old
+		// inside old(): a parameter name means the value the caller passed, also
+		// where the body has since reassigned the parameter
+		ne.vars = map[string]*SV{}
+		for k, v := range e.vars {
+			ne.vars[k] = v
+		}
+		for k, v := range e.entry {
+			ne.vars[k] = v
+		}
 		r := ne.eval(n.Args[0])
+		e.errs = ne.errs
 		return r
 	case "loopentry":
 		// loopentry(x): the value variable x had when the enclosing (cut) loop was entered
